@@ -199,6 +199,7 @@ def lc_trees(run, rng, n):
 
 def check(run):
     catoracle.fast_io()
+    catoracle.install_contracts()
     QUICK[0] = run.quick
     rng = run.rng(0)
     ntree, nconf = (24, 16) if run.quick else (300, 40)
@@ -207,6 +208,9 @@ def check(run):
         if run.too_many():
             return
     lc_trees(run, rng, 4 if run.quick else 40)
+    catoracle.report_contracts(run)
+    if not run.counters.get('contract_evaluations_new_indices'):
+        run.note_inconclusive('in-situ contracts were never evaluated')
     if run.counters.get('loads_ok', 0) < 0.8 * run.counters.get('loads', 1):
         run.note_inconclusive(f"only {run.counters.get('loads_ok', 0)} of {run.counters.get('loads')} loads produced a catalogue")
 
